@@ -86,6 +86,30 @@ type transCfg struct {
 	// state instead of the call's own argument (which must be nil), as in
 	// r.h.Sum(nil).
 	appendTo map[string]string
+	// res: results are in the three-valued go_res (GoOk v / GoPanic "why" /
+	// GoOutOfFuel); needed for loops on fuel and for explicit panic(...).
+	// fuel: the Coq expression (over the Coq names of the parameters) that
+	// bounds the iterations of every non-range loop at its entry, e.g.
+	// "S (List.length x_in)"; counted loops add their own count.
+	res  bool
+	fuel string
+	// objects: abstract objects by source text ("x", "d.r") -> kind (lexer,
+	// reader, writer): see gotrans2.go.  A signature parameter that is an
+	// object is replaced by its state; with explicit params use the pspec type
+	// "object:<kind>".
+	objects map[string]string
+	// typeMap: Go type syntax of this package -> a type the translator knows
+	// ("*Error" -> "goerr", "[]*Error" -> "[]goerr", "*Token" -> "token").
+	typeMap map[string]string
+	// retField: the function returns &T{...}; the definition yields the value
+	// given to this field of the literal.
+	retField string
+	// errLits: struct types of this package that implement error; &T{...} is
+	// the error value GoErr "T" "" (its fields are not modelled).
+	// libAlias: a package-level variable that names a modelled library value
+	// ("endian.Uint64" -> "encoding/binary.LittleEndian.Uint64").
+	errLits  map[string]bool
+	libAlias map[string]string
 }
 
 // ---------------------------------------------------------------- types
@@ -121,6 +145,9 @@ func isIntT(t string) bool {
 func isUntyped(t string) bool { return strings.HasPrefix(t, "untyped ") }
 
 func normT(t string) string {
+	if m, ok := curTypeMap[t]; ok {
+		return m
+	}
 	switch t {
 	case "byte":
 		return "uint8"
@@ -151,6 +178,22 @@ func coqType(t string) string {
 		return "go_error"
 	case tTime:
 		return "Z"
+	case "set":
+		return "list (list N)"
+	case "buffer":
+		return "list N"
+	case "[]rune":
+		return "list Z"
+	case "goerr":
+		return "go_err"
+	case "[]goerr":
+		return "list go_err"
+	case "token":
+		return "(Z * list Z)%type"
+	case "reader":
+		return "go_reader"
+	case "writer":
+		return "go_writer"
 	}
 	if isIntT(t) {
 		return "Z"
@@ -196,11 +239,13 @@ type libFn struct {
 
 // by import path + "." + name
 var libFuncs = map[string]libFn{
-	"strings.HasPrefix":  {coq: "strings_HasPrefix", args: []string{tStr, tStr}, res: tBool},
-	"strings.HasSuffix":  {coq: "strings_HasSuffix", args: []string{tStr, tStr}, res: tBool},
-	"strings.TrimPrefix": {coq: "strings_TrimPrefix", args: []string{tStr, tStr}, res: tStr},
-	"strings.TrimSuffix": {coq: "strings_TrimSuffix", args: []string{tStr, tStr}, res: tStr},
-	"strings.Contains":   {coq: "strings_Contains", args: []string{tStr, tStr}, res: tBool},
+	"strings.HasPrefix":           {coq: "strings_HasPrefix", args: []string{tStr, tStr}, res: tBool},
+	"strings.HasSuffix":           {coq: "strings_HasSuffix", args: []string{tStr, tStr}, res: tBool},
+	"strings.TrimPrefix":          {coq: "strings_TrimPrefix", args: []string{tStr, tStr}, res: tStr},
+	"strings.TrimSuffix":          {coq: "strings_TrimSuffix", args: []string{tStr, tStr}, res: tStr},
+	"strings.Contains":            {coq: "strings_Contains", args: []string{tStr, tStr}, res: tBool},
+	"strings.Fields":              {coq: "strings_Fields", args: []string{tStr}, res: tStrs},
+	"shanhu.io/g/strutil.MakeSet": {coq: "strutil_MakeSet", args: []string{tStrs}, res: "set"},
 
 	"path.Clean":              {coq: "path_Clean", args: []string{tStr}, res: tStr},
 	"path.Join":               {coq: "path_Join", args: []string{"...string"}, res: tStr},
@@ -274,6 +319,7 @@ var libConsts = map[string]cval{
 	"os.PathSeparator":        {constant.MakeInt64('/'), tURune},
 	"crypto/sha256.Size":      {constant.MakeInt64(32), tUInt},
 	"crypto/sha1.Size":        {constant.MakeInt64(20), tUInt},
+	"unicode.MaxRune":         {constant.MakeInt64(0x10FFFF), tURune},
 	"math.MaxInt64":           {constant.MakeInt64(1<<63 - 1), tUInt},
 	"math.MaxInt32":           {constant.MakeInt64(1<<31 - 1), tUInt},
 	"math.MaxUint16":          {constant.MakeInt64(1<<16 - 1), tUInt},
@@ -300,6 +346,8 @@ var coqReserved = map[string]bool{
 type funcInfo struct {
 	coq     string
 	psrcs   []string // source expression of each Coq parameter (in the callee)
+	mode    int      // modePlain / modeOption / modeRes
+	states  []string // sources of the state values appended to the results
 	recv    string   // name of the receiver variable
 	sigN    []string // names of the signature's parameters
 	params  []string // Go types of the Coq parameters (after flattening)
@@ -360,27 +408,35 @@ type kont struct {
 }
 
 type tr struct {
-	g        *codeGen
-	p        *pkg
-	file     *ast.File
-	fd       *ast.FuncDecl
-	cfg      transCfg
-	imports  map[string]string // local name -> import path
-	scopes   []map[string]*lvar
-	lconsts  []map[string]cval
-	used     map[string]bool
-	psrc     map[string]pspec
-	pnil     map[string]pspec
-	res      []string
-	bad      []string
-	nloop    int
-	pkgc     map[string]constant.Value
-	sliceRet *ast.ReturnStmt
-	guards   []string // checked mode: conditions under which the expressions read so far do not panic
+	g           *codeGen
+	p           *pkg
+	file        *ast.File
+	fd          *ast.FuncDecl
+	cfg         transCfg
+	imports     map[string]string // local name -> import path
+	scopes      []map[string]*lvar
+	lconsts     []map[string]cval
+	used        map[string]bool
+	psrc        map[string]pspec
+	pnil        map[string]pspec
+	res         []string
+	bad         []string
+	nloop       int
+	pkgc        map[string]constant.Value
+	sliceRet    *ast.ReturnStmt
+	states      []string          // cfg.stateOut + the state of the abstract objects
+	objects     map[string]string // source text -> kind
+	pending     []string          // state updates caused by the expression just translated (MakeToken)
+	lifted      []string          // loops lifted into Fixpoints, in dependency order
+	liftedNames []string
+	outerFuel   []string
+	coqName     string
+	where       string
+	guards      []string // checked mode: conditions under which the expressions read so far do not panic
 }
 
 func (t *tr) guard(c string) {
-	if t.cfg.checked {
+	if t.cfg.checked || t.cfg.res {
 		t.guards = append(t.guards, c)
 	}
 }
@@ -391,12 +447,18 @@ func (t *tr) takeGuards() []string {
 	return g
 }
 
+// curPanic is what a failed guard evaluates to in the function being translated.
+var curPanic = "None (* panic *)"
+
+// curTypeMap is transCfg.typeMap of the function being translated.
+var curTypeMap map[string]string
+
 func wrapG(gs []string, code string) string {
 	gs = dedup(gs)
 	if len(gs) == 0 {
 		return code
 	}
-	return "if " + strings.Join(gs, " && ") + "\nthen " + indent(code) + "\nelse None (* panic *)"
+	return "if " + strings.Join(gs, " && ") + "\nthen " + indent(code) + "\nelse " + curPanic
 }
 
 func (t *tr) fail(n ast.Node, why string) {
@@ -449,13 +511,21 @@ func (t *tr) snapshot() snap {
 // current NOW (not the scope of the place it is called from).
 func (t *tr) later(f func() string) func() string {
 	s := t.snapshot()
+	done, memo := false, ""
 	return func() string {
+		// the text of a continuation depends only on the scope it was created in: translate it once
+		// (loops lifted out of it are then lifted once, too)
+		if done {
+			return memo
+		}
+		defer func() { done = true }()
 		cur := snap{t.scopes, t.lconsts}
 		tmp := tr{scopes: s.scopes, lconsts: s.lconsts}
 		cp := tmp.snapshot()
 		t.scopes, t.lconsts = cp.scopes, cp.lconsts
 		r := f()
 		t.scopes, t.lconsts = cur.scopes, cur.lconsts
+		memo = r
 		return r
 	}
 }
@@ -775,12 +845,27 @@ func (t *tr) expr(e ast.Expr) (string, string) {
 		if x.Name == "nil" {
 			return "None", tNil
 		}
+		if t.isPkgErrVar(x.Name) {
+			return fmt.Sprintf("(Some (GoErr \"var\" %s))", coqStr(x.Name)), tErr
+		}
 		t.fail(e, "unknown identifier")
 		return "GoUnknown", "?"
 	case *ast.BasicLit:
 		t.fail(e, "literal")
 		return "GoUnknown", "?"
 	case *ast.UnaryExpr:
+		if x.Op == token.AND {
+			if cl, ok := x.X.(*ast.CompositeLit); ok && t.cfg.errLits[t.p.src(cl.Type)] {
+				for _, el := range cl.Elts {
+					if kv, ok := el.(*ast.KeyValueExpr); ok {
+						t.expr(kv.Value)
+					} else {
+						t.expr(el)
+					}
+				}
+				return fmt.Sprintf("(Some (GoErr %s \"\"))", coqStr(t.p.src(cl.Type))), tErr
+			}
+		}
 		a, ty := t.expr(x.X)
 		switch x.Op {
 		case token.NOT:
@@ -1125,8 +1210,33 @@ func (t *tr) call(c *ast.CallExpr) (string, string) {
 		t.g.useExtern(ex)
 		return "(" + ex.name + t.args(c, ex.args) + ")", tupleT(ex.res)
 	}
+	if key, ok := t.cfg.libAlias[fsrc]; ok {
+		if lf, ok := libChains[key]; ok {
+			return t.libCall(c, lf, "")
+		}
+	}
+	if sel, ok := c.Fun.(*ast.SelectorExpr); ok && sel.Sel.Name == "Bytes" && len(c.Args) == 0 {
+		if id, ok := sel.X.(*ast.Ident); ok {
+			if v := t.lookup(id.Name); v != nil && v.typ == "buffer" {
+				return v.coq, tBytes
+			}
+		}
+	}
 	if key, ok := t.cfg.calls[fsrc]; ok {
+		if fi, _ := t.calleeOf(c); fi != nil && needsBind(fi) {
+			t.fail(c, "a call that returns state is only translated as a statement, an assignment or a return")
+			return "GoUnknown", "?"
+		}
 		return t.methodCall(c, key)
+	}
+	if sel, ok := c.Fun.(*ast.SelectorExpr); ok {
+		if obj, kind, ok := t.objectOf(sel.X); ok {
+			if code, ty, ok := t.objExprCall(c, obj, kind, sel.Sel.Name); ok {
+				return code, ty
+			}
+			t.fail(c, "method "+sel.Sel.Name+" of the abstract "+kind+" is not modelled as an expression")
+			return "GoUnknown", "?"
+		}
 	}
 	switch f := c.Fun.(type) {
 	case *ast.ParenExpr:
@@ -1147,9 +1257,41 @@ func (t *tr) call(c *ast.CallExpr) (string, string) {
 			return "GoUnknown", "?"
 		}
 		switch f.Name {
+		case "make":
+			if len(c.Args) == 2 && t.p.goType(c.Args[0]) == tBytes {
+				n, tn := t.expr(c.Args[1])
+				if !isIntT(tn) {
+					t.fail(c, "make length")
+				}
+				t.guard("(go_make_ok " + n + ")")
+				return "(go_make_bytes " + n + ")", tBytes
+			}
+		case "append":
+			if len(c.Args) == 2 {
+				a, ta := t.expr(c.Args[0])
+				if c.Ellipsis.IsValid() {
+					b := t.exprAs(c.Args[1], ta)
+					return "(" + a + " ++ " + b + ")", ta
+				}
+				switch ta {
+				case tStrs:
+					return "(" + a + " ++ [" + t.exprAs(c.Args[1], tStr) + "])", ta
+				case tBytes:
+					return "(" + a + " ++ [Z.to_N " + t.exprAs(c.Args[1], "uint8") + "])", ta
+				case "[]rune":
+					return "(" + a + " ++ [" + t.exprAs(c.Args[1], "int32") + "])", ta
+				case "[]goerr":
+					return "(" + a + " ++ [" + t.exprAs(c.Args[1], "goerr") + "])", ta
+				}
+				t.fail(c, "append to type "+ta)
+				return "GoUnknown", ta
+			}
 		case "len":
 			if len(c.Args) == 1 {
 				a, ta := t.expr(c.Args[0])
+				if ta == "[]rune" || ta == "[]goerr" {
+					return "(go_len " + a + ")", "int"
+				}
 				if ta != tStr && ta != tBytes && ta != tStrs && ta != tUStr {
 					t.fail(c, "len of type "+ta)
 				}
@@ -1175,6 +1317,10 @@ func (t *tr) call(c *ast.CallExpr) (string, string) {
 		}
 		key := t.p.dir + "||" + f.Name
 		if fi, ok := t.g.funcs[key]; ok {
+			if fi.ok && needsBind(fi) {
+				t.fail(c, "a call that returns state is only translated as a statement, an assignment or a return")
+				return "GoUnknown", "?"
+			}
 			if !fi.ok {
 				t.fail(c, "call of a function that was not translated")
 				return "GoUnknown", fi.res
@@ -1414,6 +1560,9 @@ func (t *tr) resCoqType() string {
 	if t.cfg.sliceEarly && r != "" {
 		r = "option (" + strings.TrimSuffix(r, "%type") + ")"
 	}
+	if t.cfg.res && r != "" {
+		return "go_res (" + strings.TrimSuffix(r, "%type") + ")"
+	}
 	if t.cfg.checked && r != "" {
 		return "option (" + strings.TrimSuffix(r, "%type") + ")"
 	}
@@ -1448,6 +1597,13 @@ func (t *tr) stmts(ss []ast.Stmt, k kont) string {
 	case *ast.EmptyStmt:
 		return restHere()
 	case *ast.ReturnStmt:
+		if len(x.Results) == 1 {
+			if c, ok := unwrapConv(x.Results[0]).(*ast.CallExpr); ok {
+				if fi, recvSrc := t.calleeOf(c); fi != nil && needsBind(fi) {
+					return t.returnCall(x, c, fi, recvSrc)
+				}
+			}
+		}
 		r := t.ret(x)
 		return wrapG(t.takeGuards(), r)
 	case *ast.BlockStmt:
@@ -1508,6 +1664,19 @@ func (t *tr) stmts(ss []ast.Stmt, k kont) string {
 			for i, n := range vs.Names {
 				ty := t.p.goType(vs.Type)
 				var val string
+				if at, ok := vs.Type.(*ast.ArrayType); ok && at.Len != nil && len(vs.Values) == 0 {
+					// var buf [8]byte: a zeroed byte array, handled as a slice of that length
+					if k := t.constOf(at.Len); k != nil && normT(t.p.src(at.Elt)) == "uint8" {
+						c := t.declare(n.Name, tBytes)
+						pre += "let " + c + " := (go_make_bytes " + k.v.ExactString() + ") in\n"
+						continue
+					}
+				}
+				if id, ok := vs.Type.(*ast.SelectorExpr); ok && len(vs.Values) == 0 && t.p.src(id) == "bytes.Buffer" {
+					c := t.declare(n.Name, "buffer")
+					pre += "let " + c + " := [] in\n"
+					continue
+				}
 				if i < len(vs.Values) {
 					if ty != "" {
 						val = t.exprAs(vs.Values[i], ty)
@@ -1529,8 +1698,21 @@ func (t *tr) stmts(ss []ast.Stmt, k kont) string {
 		gs := t.takeGuards()
 		return wrapG(gs, pre+restHere())
 	case *ast.AssignStmt:
+		if len(x.Rhs) == 1 && (x.Tok == token.DEFINE || x.Tok == token.ASSIGN) {
+			if c, ok := x.Rhs[0].(*ast.CallExpr); ok {
+				if code, ok := t.libEffect(c, x.Lhs, x.Tok == token.DEFINE, restHere); ok {
+					return code
+				}
+				if fi, recvSrc := t.calleeOf(c); fi != nil && needsBind(fi) {
+					return t.bindCall(c, fi, recvSrc, x.Lhs, x.Tok == token.DEFINE, restHere)
+				}
+			}
+		}
+		t.pending = nil
 		pre := t.assign(x)
 		gs := t.takeGuards()
+		pre += strings.Join(t.pending, "")
+		t.pending = nil
 		return wrapG(gs, pre+restHere())
 	case *ast.IncDecStmt:
 		id, ok := x.X.(*ast.Ident)
@@ -1550,17 +1732,9 @@ func (t *tr) stmts(ss []ast.Stmt, k kont) string {
 		}
 		return "let " + v.coq + " := " + t.wrap(v.typ, "("+v.coq+" "+op+" 1)") + " in\n" + restHere()
 	case *ast.ExprStmt:
-		if c, ok := x.X.(*ast.CallExpr); ok && len(c.Args) == 1 && !c.Ellipsis.IsValid() {
-			if st, ok := t.cfg.appendTo[t.p.src(c.Fun)]; ok && t.isState(st) {
-				if v := t.lookup(st); v != nil && v.typ == tBytes {
-					a := t.exprAs(c.Args[0], tBytes)
-					gs := t.takeGuards()
-					return wrapG(gs, "let "+v.coq+" := ("+v.coq+" ++ "+a+") in\n"+restHere())
-				}
-			}
-		}
-		t.fail(x, "expression statement")
-		return "GoUnknown"
+		return t.exprStmt(x, restHere)
+	case *ast.ForStmt:
+		return t.forStmt(x, k, t.later(restHere))
 	case *ast.IfStmt:
 		return t.ifStmt(x, k, t.later(restHere))
 	case *ast.SwitchStmt:
@@ -1617,27 +1791,41 @@ func (t *tr) ret(x *ast.ReturnStmt) string {
 	} else {
 		r = t.ret0(x)
 	}
-	if t.cfg.checked {
-		return "Some " + r
-	}
-	return r
+	return t.okWrap(r)
 }
 
 func (t *tr) ret0(x *ast.ReturnStmt) string {
-	if n := len(t.cfg.stateOut); n > 0 {
+	if n := len(t.states); n > 0 {
+		if t.cfg.retField != "" && len(x.Results) == 1 {
+			x = &ast.ReturnStmt{Results: []ast.Expr{t.fieldOfLit(x.Results[0])}}
+		}
 		if len(x.Results) != len(t.res)-n {
 			t.fail(x, "return arity")
 			return "GoUnknown"
 		}
 		var rs []string
+		t.pending = nil
 		for i, r := range x.Results {
 			rs = append(rs, t.exprAs(r, t.res[i]))
 		}
+		pre := ""
+		if len(t.pending) > 0 {
+			for i := range rs {
+				n := t.fresh("ret")
+				pre += "let " + n + " := " + rs[i] + " in\n"
+				rs[i] = n
+			}
+			pre += strings.Join(t.pending, "")
+			t.pending = nil
+		}
 		rs = append(rs, t.stateVals()...)
 		if len(rs) == 1 {
-			return rs[0]
+			return pre + rs[0]
 		}
-		return "(" + strings.Join(rs, ", ") + ")"
+		return pre + "(" + strings.Join(rs, ", ") + ")"
+	}
+	if t.cfg.retField != "" && len(x.Results) == 1 {
+		x = &ast.ReturnStmt{Results: []ast.Expr{t.fieldOfLit(x.Results[0])}}
 	}
 	if len(t.res) == 0 {
 		if len(x.Results) != 0 {
@@ -1699,6 +1887,18 @@ func (t *tr) assign(x *ast.AssignStmt) string {
 			t.fail(x, "assignment of type "+ty+" to "+v.typ)
 		}
 		return v.coq
+	}
+	if len(x.Lhs) == 2 && len(x.Rhs) == 1 && (x.Tok == token.DEFINE || x.Tok == token.ASSIGN) {
+		if ie, ok := x.Rhs[0].(*ast.IndexExpr); ok {
+			// _, ok := set[key]  (a map used as a set)
+			m, tm := t.expr(ie.X)
+			if tm == "set" && isIdent(x.Lhs[0], "_") {
+				k := t.exprAs(ie.Index, tStr)
+				if n, ok := lhsName(x.Lhs[1]); ok {
+					return "let " + bind(n, tBool, x.Tok == token.DEFINE) + " := (go_set_mem " + k + " " + m + ") in\n"
+				}
+			}
+		}
 	}
 	switch x.Tok {
 	case token.DEFINE, token.ASSIGN:
@@ -1769,7 +1969,7 @@ func (t *tr) assign(x *ast.AssignStmt) string {
 
 // isState: src names a field listed in cfg.stateOut (assignable).
 func (t *tr) isState(src string) bool {
-	for _, s := range t.cfg.stateOut {
+	for _, s := range t.states {
 		if s == src {
 			return true
 		}
@@ -1779,7 +1979,7 @@ func (t *tr) isState(src string) bool {
 
 func (t *tr) stateVals() []string {
 	var vs []string
-	for _, s := range t.cfg.stateOut {
+	for _, s := range t.states {
 		if v := t.lookup(s); v != nil {
 			vs = append(vs, v.coq)
 		} else {
@@ -1800,12 +2000,34 @@ func (t *tr) simple(s ast.Stmt) string {
 }
 
 func (t *tr) ifStmt(x *ast.IfStmt, k kont, after func() string) string {
+	// loops and effect statements in a branch: sequence the rest after each branch
+	effects := false
+	for _, n := range []ast.Node{x.Body, x.Else} {
+		if n == nil {
+			continue
+		}
+		ast.Inspect(n, func(m ast.Node) bool {
+			switch m.(type) {
+			case *ast.ForStmt, *ast.RangeStmt, *ast.ExprStmt:
+				effects = true
+			}
+			return true
+		})
+	}
+	if effects {
+		return t.ifStmt1(x, k, after, true)
+	}
 	s := t.ifStmt1(x, k, after, false)
-	if t.cfg.checked && strings.Contains(s, "(* join *)") && strings.Contains(strings.SplitN(s, "(* join *)", 2)[0], "None (* panic *)") {
+	if (t.cfg.checked || t.cfg.res) && strings.Contains(s, "(* join *)") && joinUnsafe(strings.SplitN(s, "(* join *)", 2)[0]) {
 		// a branch of the joined form can panic: sequence the rest after each branch instead
 		return t.ifStmt1(x, k, after, true)
 	}
 	return strings.Replace(s, "(* join *)", "", 1)
+}
+
+func joinUnsafe(branches string) bool {
+	return strings.Contains(branches, "(* panic *)") || strings.Contains(branches, "go_bind ") ||
+		strings.Contains(branches, "_loop")
 }
 
 func (t *tr) ifStmt1(x *ast.IfStmt, k kont, after func() string, noJoin bool) string {
@@ -2105,7 +2327,19 @@ func (g *codeGen) translateFunc(p *pkg, dir, recv, name string, cfg transCfg) (s
 	}
 	pkgc, _ := p.consts()
 	t := &tr{g: g, p: p, file: file, fd: fd, cfg: cfg, imports: map[string]string{}, used: map[string]bool{},
-		psrc: map[string]pspec{}, pnil: map[string]pspec{}, pkgc: pkgc}
+		psrc: map[string]pspec{}, pnil: map[string]pspec{}, pkgc: pkgc, objects: map[string]string{},
+		coqName: coqName, where: where}
+	curTypeMap = cfg.typeMap
+	defer func() { curTypeMap = nil; curPanic = "None (* panic *)" }()
+	curPanic = "None (* panic *)"
+	if cfg.res {
+		curPanic = "GoPanic \"runtime error: index or slice out of range, division by zero or short buffer\" (* panic *)"
+	}
+	fi.mode = t.mode()
+	for k, v := range cfg.objects {
+		t.objects[k] = v
+	}
+	t.states = append(t.states, cfg.stateOut...)
 	for _, im := range file.Imports {
 		ip, _ := strconv.Unquote(im.Path.Value)
 		n := filepath.Base(ip)
@@ -2126,6 +2360,9 @@ func (g *codeGen) translateFunc(p *pkg, dir, recv, name string, cfg transCfg) (s
 		for _, f := range fd.Type.Params.List {
 			ty := p.goType(f.Type)
 			for _, n := range f.Names {
+				if k, ok := cfg.objects[n.Name]; ok {
+					ty = "object:" + k
+				}
 				params = append(params, pspec{src: n.Name, name: n.Name, typ: ty})
 			}
 			if len(f.Names) == 0 {
@@ -2141,6 +2378,28 @@ func (g *codeGen) translateFunc(p *pkg, dir, recv, name string, cfg transCfg) (s
 			fi.sigN = append(fi.sigN, n.Name)
 		}
 	}
+	// abstract objects: their state instead of the object
+	var expanded []pspec
+	for _, ps := range params {
+		if strings.HasPrefix(ps.typ, "object:") {
+			kind := strings.TrimPrefix(ps.typ, "object:")
+			sts, ok := objKinds[kind]
+			if !ok {
+				t.fail(nil, "unknown object kind "+kind)
+				continue
+			}
+			t.objects[ps.src] = kind
+			for _, st := range sts {
+				src := objSrc(ps.src, st.suffix)
+				expanded = append(expanded, pspec{src: src, name: ps.name + "_" + st.suffix, typ: st.typ})
+				t.states = append(t.states, src)
+			}
+			continue
+		}
+		expanded = append(expanded, ps)
+	}
+	params = expanded
+	fi.states = append([]string{}, t.states...)
 	var sig []string
 	for _, ps := range params {
 		ty := normT(ps.typ)
@@ -2180,7 +2439,12 @@ func (g *codeGen) translateFunc(p *pkg, dir, recv, name string, cfg transCfg) (s
 			}
 		}
 	}
-	for _, so := range cfg.stateOut {
+	if cfg.results == nil {
+		for i := range t.res {
+			t.res[i] = normT(t.res[i])
+		}
+	}
+	for _, so := range t.states {
 		v := t.lookup(so)
 		if v == nil {
 			t.fail(nil, "state "+so+" is not a parameter")
@@ -2189,6 +2453,9 @@ func (g *codeGen) translateFunc(p *pkg, dir, recv, name string, cfg transCfg) (s
 		t.res = append(t.res, v.typ)
 	}
 	fi.res = tupleT(t.res)
+	if len(t.res) == 0 {
+		fi.res = ""
+	}
 	rct := t.resCoqType()
 	if rct == "" {
 		t.fail(fd.Type.Results, "result type")
@@ -2200,12 +2467,9 @@ func (g *codeGen) translateFunc(p *pkg, dir, recv, name string, cfg transCfg) (s
 	}
 	body := t.stmts(stmtList, kont{fall: func() string {
 		if len(t.res) == 0 {
-			if cfg.checked {
-				return "Some tt"
-			}
-			return "tt"
+			return t.okWrap("tt")
 		}
-		if len(cfg.stateOut) > 0 && len(t.res) == len(cfg.stateOut) {
+		if len(t.states) > 0 && len(t.res) == len(t.states) {
 			return t.ret(&ast.ReturnStmt{})
 		}
 		t.fail(nil, "function may end without return")
@@ -2220,6 +2484,9 @@ func (g *codeGen) translateFunc(p *pkg, dir, recv, name string, cfg transCfg) (s
 	def := fmt.Sprintf("(* %s *)\nDefinition %s %s : %s :=\n  %s.\n", where, coqName, strings.Join(sig, " "), rct, indent(body))
 	if len(sig) == 0 {
 		def = fmt.Sprintf("(* %s *)\nDefinition %s : %s :=\n  %s.\n", where, coqName, rct, indent(body))
+	}
+	if len(t.lifted) > 0 {
+		def = strings.Join(t.lifted, "\n") + "\n" + def
 	}
 	return def, nil
 }
